@@ -53,12 +53,11 @@ unsafe impl GlobalAlloc for Counting {
         System.alloc_zeroed(layout)
     }
     unsafe fn realloc(&self, ptr: *mut u8, layout: Layout, new_size: usize) -> *mut u8 {
-        if new_size > layout.size() {
-            on_alloc(new_size - layout.size());
-        } else {
-            on_free(layout.size() - new_size);
-        }
-        System.realloc(ptr, layout, new_size)
+        // a growing realloc may move: old and new block are live at once
+        on_alloc(new_size);
+        let p = System.realloc(ptr, layout, new_size);
+        on_free(layout.size());
+        p
     }
 }
 
